@@ -16,10 +16,11 @@ type progGen struct {
 	p        *Prog
 	defNames []string
 	budget   int
+	leakProbe bool
 }
 
 var storeNames = []string{"x", "head", "tail-1", "A", "slash"}
-var crsEvasion = []string{"[\\x5c'\\\"]*", "[\"\\^]*", "_av-u_", "(?:\\s|<|>)*", "[\\x5c'\\\"\\[]*(?:\\$[a-z0-9_@?!#{*-]*)?(?:\\x5c)?", "  [x']* \t"}
+var crsEvasion = []string{"[^ a-z0-9]*", "(?:[ \\t]|\\x5c)*", "[\\x5c'\\\"]*", "[\"\\^]*", "_av-u_", "(?:\\s|<|>)*", "[\\x5c'\\\"\\[]*(?:\\$[a-z0-9_@?!#{*-]*)?(?:\\x5c)?", "  [x']* \t"}
 var crsSuffix = []string{"(?:\\s|<|>).*", "[\\s<>]", "(?:[\\s,;]|$)", "\\s+end", " [ ,;]+ "}
 var crsNoSpace = []string{"[^\\s]", "(?:[<>,;]|\\d)", "[0-9]", "[<>].*"}
 var cmdWordPool = []string{"ls", "cat", "nc.traditional", "apt-get", "python3~", "time@", "curl@", "a b", "gcc-9", "c99", "w\\@", "x\\~", "ps", "id@", "sh~", "ab", "abc", "net user", "x_y", "7z@"}
@@ -234,6 +235,7 @@ func genProg(r *Rng, focus string) *Prog {
 				f.Body = append([]*Item{{Kind: "define", Text: "incdef", Value: r.Pick([]string{"[0-9]+", "q", "(?:u|v)"})}}, f.Body...)
 				f.Body = append(f.Body, &Item{Kind: "entry", Text: "z{{incdef}}"})
 				p.feat("include-own-definition")
+				g.leakProbe = true
 			}
 			if i > 0 && r.Chance(1, 3) && len(f.Prefixes) == 0 && len(f.Suffixes) == 0 {
 				// nested include of an earlier file
@@ -253,6 +255,11 @@ func genProg(r *Rng, focus string) *Prog {
 		p.feat("suffix")
 	}
 	p.Body = g.block(0, false)
+	if g.leakProbe && r.Chance(1, 2) {
+		// the includer mentions the name an include file defines for itself: must stay literal text
+		p.Body = append(p.Body, &Item{Kind: "entry", Text: "lit{{incdef}}"})
+		p.feat("undefined-ref-to-include-definition")
+	}
 	// definition lines: anywhere in the body
 	for i, nm := range g.defNames {
 		val := r.Pick([]string{"[a-z]+", "\\d{1,3}", "(?:p|q)", "w", "x{2}", "\\.", "[^\"]"})
